@@ -142,8 +142,10 @@ var atomList = []atomDef{
 	{"plug-type=app", "plug-snap-type", strList("app"), slotConn | plugInst, func(c *cand) bool { return normType(c.PlugType) == "app" }},
 	{"plug-type=gadget,core", "plug-snap-type", strList("gadget", "core"), slotConn | plugInst, func(c *cand) bool { return in(normType(c.PlugType), "gadget", "core") }},
 	// snap ids (an unasserted snap has no id and never matches)
-	{"slot-id=1", "slot-snap-id", strList(slotIDs[1]), plugConn | slotInst, func(c *cand) bool { return c.SlotIdent == 1 }},
-	{"slot-id=1,2", "slot-snap-id", strList(slotIDs[1], slotIDs[2]), plugConn | slotInst, func(c *cand) bool { return c.SlotIdent != 0 }},
+	// (the snap under test in the installation layers carries plugIDs[ident], hence both spellings in slot-snap-id;
+	// a slot snap never has a plugIDs id, so the connection meaning is unchanged)
+	{"slot-id=1", "slot-snap-id", strList(slotIDs[1], plugIDs[1]), plugConn | slotInst, func(c *cand) bool { return c.SlotIdent == 1 }},
+	{"slot-id=1,2", "slot-snap-id", strList(slotIDs[1], slotIDs[2], plugIDs[1], plugIDs[2]), plugConn | slotInst, func(c *cand) bool { return c.SlotIdent != 0 }},
 	{"plug-id=1", "plug-snap-id", strList(plugIDs[1]), slotConn | plugInst, func(c *cand) bool { return c.PlugIdent == 1 }},
 	{"plug-id=1,2", "plug-snap-id", strList(plugIDs[1], plugIDs[2]), slotConn | plugInst, func(c *cand) bool { return c.PlugIdent != 0 }},
 	// publishers
@@ -582,11 +584,25 @@ func setEnv(env int) {
 	release.MockReleaseInfo(&release.OS{ID: id})
 }
 
+// objs: the real objects of one candidate.
+type objs struct {
+	plug *interfaces.ConnectedPlug
+	slot *interfaces.ConnectedSlot
+	info *snap.Info
+}
+
+func (w *world) objsFor(c *cand, install bool) objs {
+	if install {
+		return objs{info: w.installInfo(c)}
+	}
+	return objs{plug: w.plug(c), slot: w.slot(c)}
+}
+
 // implConnect runs the real check. The process-global environment must already be c.Env.
-func (w *world) implConnect(b *built, c *cand, kind string) error {
+func (w *world) implConnect(b *built, c *cand, o objs, kind string) error {
 	cc := policy.ConnectCandidate{
-		Plug:            w.plug(c),
-		Slot:            w.slot(c),
+		Plug:            o.plug,
+		Slot:            o.slot,
 		BaseDeclaration: b.base,
 		Model:           w.models[c.Dev],
 		Store:           w.stores[c.Dev],
@@ -607,9 +623,9 @@ func (w *world) implConnect(b *built, c *cand, kind string) error {
 	return err
 }
 
-func (w *world) implInstall(b *built, c *cand) error {
+func (w *world) implInstall(b *built, c *cand, o objs) error {
 	ic := policy.InstallCandidate{
-		Snap:            w.installInfo(c),
+		Snap:            o.info,
 		BaseDeclaration: b.base,
 		Model:           w.models[c.Dev],
 		Store:           w.stores[c.Dev],
@@ -641,14 +657,14 @@ func errStr(err error) string {
 }
 
 // evalOne compares implementation and reference on one case; returns "" or a message.
-func (w *world) evalOne(b *built, d *declSet, c *cand, kind string) (msg string, allowed bool, level string) {
+func (w *world) evalOne(b *built, d *declSet, c *cand, o objs, kind string) (msg string, allowed bool, level string) {
 	var err error
 	var want bool
 	if kind == "installation" {
-		err = w.implInstall(b, c)
+		err = w.implInstall(b, c, o)
 		want, level = refInstall(d, c)
 	} else {
-		err = w.implConnect(b, c, kind)
+		err = w.implConnect(b, c, o, kind)
 		want, level = refConnect(d, c, kind)
 	}
 	if (err == nil) != want {
@@ -678,6 +694,12 @@ func (rn *runner) full() bool { return atomic.LoadInt64(&rn.nviol) >= rn.maxViol
 // sweep evaluates declSets x cands x kinds; cands must be grouped by Env (the process global is switched
 // between groups, never inside the parallel phase).
 func (rn *runner) sweep(layer string, decls []*declSet, cands []cand, kinds []string, keep func(di int, ci int, kind string, allowed bool)) {
+	if rn.r.TimeUp() {
+		rn.r.Cap("time", "layer "+layer+" and the following ones were not run")
+		return
+	}
+	t0 := time.Now()
+	defer func() { rn.r.Add(layer+"_ms", int64(time.Since(t0)/time.Millisecond)) }()
 	install := len(kinds) == 1 && kinds[0] == "installation"
 	byEnv := map[int][]int{}
 	for i := range cands {
@@ -685,6 +707,10 @@ func (rn *runner) sweep(layer string, decls []*declSet, cands []cand, kinds []st
 	}
 	builts := make([]*built, len(decls))
 	eng.ParallelFor(len(decls), func(di int) { builts[di] = build(decls[di], install) })
+	prepared := make([]objs, len(cands))
+	for i := range cands {
+		prepared[i] = rn.w.objsFor(&cands[i], install)
+	}
 	var evals, nontrivial, nallowed int64
 	for env := 0; env < 3; env++ {
 		idx := byEnv[env]
@@ -698,20 +724,22 @@ func (rn *runner) sweep(layer string, decls []*declSet, cands []cand, kinds []st
 			}
 			d, b := decls[di], builts[di]
 			var ev, nt, al int64
-			seen := map[string]struct{}{}
+			seen := map[[3]string]struct{}{}
 			reported := false
 			for _, ci := range idx {
 				c := &cands[ci]
 				for _, kind := range kinds {
-					msg, allowed, level := rn.w.evalOne(b, d, c, kind)
+					msg, allowed, level := rn.w.evalOne(b, d, c, prepared[ci], kind)
 					ev++
+					verdict := "refused"
 					if allowed {
 						al++
+						verdict = "allowed"
 					}
 					if decidedByConstraints(d, c, kind) {
 						nt++
 					}
-					seen[fmt.Sprintf("%s/%s/%v", kind, level, allowed)] = struct{}{}
+					seen[[3]string{kind, level, verdict}] = struct{}{}
 					if keep != nil {
 						keep(di, ci, kind, allowed)
 					}
@@ -726,7 +754,7 @@ func (rn *runner) sweep(layer string, decls []*declSet, cands []cand, kinds []st
 			atomic.AddInt64(&nontrivial, nt)
 			atomic.AddInt64(&nallowed, al)
 			for k := range seen {
-				rn.r.Distinct("outcome", k)
+				rn.r.Distinct("outcome", k[0]+"/"+k[1]+"/"+k[2])
 			}
 		})
 	}
@@ -830,6 +858,12 @@ func fullConnCands() []cand {
 		S("app", "gadget", "os", "snapd"), S(ifaceName, "alt"), S("S1", "S2"), I(0, 1, 2), I(0, 1, 2), I(0, 1, 2))
 }
 
+// mediumConnCands: every dimension present, with two values where the full product has three or four.
+func mediumConnCands() []cand {
+	return connCands(S("app", "gadget"), S(ifaceName, "alt"), S("", "P1"), S("x", "y"), I(0, 1, 2),
+		S("app", "os"), S(ifaceName, "alt"), S("S1", "S2"), I(0, 1, 2), I(0, 1), I(0, 1))
+}
+
 func reducedConnCands() []cand {
 	return connCands(S("app", "gadget"), S(ifaceName), S("", "P1", "P2"), S("x"), I(0, 1, 2),
 		S("app", "os"), S(ifaceName), S("S1", "S2"), I(0, 1, 2), I(0, 1), I(0))
@@ -860,18 +894,17 @@ func installCands(types, pn, pp, sn, ss []interface{}, ident, env, dev []interfa
 	return res
 }
 
-// maps over the atoms usable on a side: every single atom and every pair with different keys (pairsOf limits
-// the atoms that take part in pairs to the first of each key when primaryOnly).
-func mapsFor(side int, primaryOnly bool) []cmap {
+// mapsFor: the constraint maps over the atoms usable on a side: every single atom, and every pair of atoms with
+// different keys (primaryOnly: only the first atom of each key takes part in pairs).
+func mapsFor(side int, primaryOnly bool) (singles, pairs []cmap) {
 	var names []string
 	for _, a := range atomList {
 		if a.Sides&side != 0 {
 			names = append(names, a.Name)
 		}
 	}
-	var res []cmap
 	for _, n := range names {
-		res = append(res, cmap{n})
+		singles = append(singles, cmap{n})
 	}
 	firstOfKey := map[string]string{}
 	for _, n := range names {
@@ -887,10 +920,10 @@ func mapsFor(side int, primaryOnly bool) []cmap {
 			if primaryOnly && (firstOfKey[atoms[a].Key] != a || firstOfKey[atoms[b].Key] != b) {
 				continue
 			}
-			res = append(res, cmap{a, b})
+			pairs = append(pairs, cmap{a, b})
 		}
 	}
-	return res
+	return singles, pairs
 }
 
 // altOptions: absent, true, false, every single map (bare and as a one-element list), every pair i<j, and
@@ -971,7 +1004,7 @@ func pick(maps []cmap, names ...string) []cmap {
 // the check
 // ------------------------------------------------------------------------------------------------
 
-const rule = "atoms: every constraint map of one atom or two atoms with different keys, as the only allow / only deny alternative of a rule at each level where its side applies, x the full candidate product; " +
+const rule = "atoms: every constraint map of one atom (x the full candidate product) or two atoms with different keys (quick: x the medium product), as the only allow / only deny alternative of a rule at each level where its side applies; " +
 	"rules: every (allow, deny) pair of {absent,true,false,map,[map],[map,map]} over a reduced map menu at each of the 4 levels x reduced candidates (connection and auto-connection carry different specs), plus monotonicity of the implementation's answers under added deny alternatives; " +
 	"precedence: every assignment of {no rule, 6 rules} to the 4 levels x reduced candidates; install: the same for InstallCandidate.Check with the snap-declaration and base-declaration plug and slot rules. " +
 	"Oracle: first present level decides, matching deny refuses, else some allow alternative must fully match. " +
@@ -1001,28 +1034,6 @@ func TestC21(t *testing.T) {
 	thorough := r.Thorough()
 	full := fullConnCands()
 	reduced := reducedConnCands()
-
-	// ---- layer "atoms" ----
-	{
-		var decls []*declSet
-		for _, side := range []struct {
-			side   int
-			levels []string
-		}{{plugConn, []string{"PS", "BP"}}, {slotConn, []string{"SS", "BS"}}} {
-			maps := mapsFor(side.side, !thorough)
-			for _, m := range maps {
-				one := altSpec{Mode: "list", Maps: []cmap{m}}
-				bare := altSpec{Mode: "map", Maps: []cmap{m}}
-				for _, lv := range side.levels {
-					// as the only allow alternative (connection) / the only deny alternative (auto-connection), and the other way round
-					decls = append(decls,
-						atLevel(lv, &fullRule{Conn: &ruleSpec{Allow: one}, Auto: &ruleSpec{Deny: bare}}),
-						atLevel(lv, &fullRule{Conn: &ruleSpec{Deny: one}, Auto: &ruleSpec{Allow: bare}}))
-				}
-			}
-		}
-		rn.sweep("atoms", decls, full, connKinds, nil)
-	}
 
 	// ---- layer "rules" + monotonicity ----
 	plugMenu := pick(nil, "plug-p=P1", "slot-s=S1", "slot-type=core", "slot-pub=$PLUG", "classic", "plug-p=P1&slot-s=S1")
@@ -1096,6 +1107,39 @@ func TestC21(t *testing.T) {
 		rn.sweep("precedence", decls, reduced, connKinds, nil)
 	}
 
+	// ---- layer "atoms" ----
+	if !rn.full() {
+		atomDecls := func(maps []cmap, levels []string) []*declSet {
+			var decls []*declSet
+			for _, m := range maps {
+				one := altSpec{Mode: "list", Maps: []cmap{m}}
+				bare := altSpec{Mode: "map", Maps: []cmap{m}}
+				for _, lv := range levels {
+					// as the only allow alternative (connection) / the only deny alternative (auto-connection), and the other way round
+					decls = append(decls,
+						atLevel(lv, &fullRule{Conn: &ruleSpec{Allow: one}, Auto: &ruleSpec{Deny: bare}}),
+						atLevel(lv, &fullRule{Conn: &ruleSpec{Deny: one}, Auto: &ruleSpec{Allow: bare}}))
+				}
+			}
+			return decls
+		}
+		var single, pair []*declSet
+		for _, side := range []struct {
+			side   int
+			levels []string
+		}{{plugConn, []string{"PS", "BP"}}, {slotConn, []string{"SS", "BS"}}} {
+			singles, pairs := mapsFor(side.side, !thorough)
+			single = append(single, atomDecls(singles, side.levels)...)
+			pair = append(pair, atomDecls(pairs, side.levels)...)
+		}
+		rn.sweep("atoms", single, full, connKinds, nil)
+		if thorough {
+			rn.sweep("atom_pairs", pair, full, connKinds, nil)
+		} else {
+			rn.sweep("atom_pairs", pair, mediumConnCands(), connKinds, nil)
+		}
+	}
+
 	// ---- layer "install" ----
 	if !rn.full() {
 		instFull := installCands(S("app", "gadget", "os", "snapd"), S(ifaceName, "alt"), S("", "P1", "P2"), S(ifaceName, "alt"), S("S1", "S2"),
@@ -1108,7 +1152,8 @@ func TestC21(t *testing.T) {
 			side   int
 			levels []string
 		}{{plugInst, []string{"SP", "BP"}}, {slotInst, []string{"SL", "BS"}}} {
-			for _, m := range mapsFor(side.side, !thorough) {
+			singles, pairs := mapsFor(side.side, !thorough)
+			for _, m := range append(singles, pairs...) {
 				one := altSpec{Mode: "list", Maps: []cmap{m}}
 				bare := altSpec{Mode: "map", Maps: []cmap{m}}
 				for _, lv := range side.levels {
@@ -1178,13 +1223,22 @@ func TestC21(t *testing.T) {
 		r.Cap("violations", fmt.Sprintf("stopped after %d violating declaration sets", rn.maxViol))
 	}
 	r.Info("bounds", map[string]int{"atoms": len(atomList), "full_candidates": len(full), "reduced_candidates": len(reduced),
-		"plug_side_maps": len(mapsFor(plugConn, !thorough)), "slot_side_maps": len(mapsFor(slotConn, !thorough)),
+		"plug_side_atoms": countMaps(plugConn, !thorough, false), "plug_side_atom_pairs": countMaps(plugConn, !thorough, true),
+		"slot_side_atoms": countMaps(slotConn, !thorough, false), "slot_side_atom_pairs": countMaps(slotConn, !thorough, true),
 		"alt_options_per_entry": len(altOptions(plugMenu, thorough)), "precedence_rules_per_level": len(plugR)})
 	r.Sample(c21Case{Layer: "precedence", Kind: "auto-connection", Cand: &reduced[len(reduced)/2],
 		Decls: &declSet{PS: &fullRule{Conn: plugR[3], Auto: plugR[5]}, BS: &fullRule{Conn: slotR[2], Auto: slotR[0]}}})
 	r.Sample(c21Case{Layer: "atoms", Kind: "connection", Cand: &full[len(full)/3],
 		Decls: atLevel("SS", &fullRule{Conn: &ruleSpec{Allow: altSpec{Mode: "list", Maps: pick(nil, "plug-pub=$SLOT&slot-type=core")}}})})
 	r.Finish(rule)
+}
+
+func countMaps(side int, primaryOnly, pairs bool) int {
+	a, b := mapsFor(side, primaryOnly)
+	if pairs {
+		return len(b)
+	}
+	return len(a)
 }
 
 // denySubset: is every deny alternative of a also one of b (so b only adds deny alternatives)?
@@ -1273,8 +1327,9 @@ func (rn *runner) replay(c c21Case) {
 	install := c.Kind == "installation"
 	b := build(c.Decls, install)
 	var first string
+	o := rn.w.objsFor(c.Cand, install)
 	for i := 0; i < 5; i++ {
-		msg, allowed, level := rn.w.evalOne(b, c.Decls, c.Cand, c.Kind)
+		msg, allowed, level := rn.w.evalOne(b, c.Decls, c.Cand, o, c.Kind)
 		out := fmt.Sprintf("%s: implementation allowed=%v, deciding level %s %s", c.Kind, allowed, level, msg)
 		if i == 0 {
 			first = out
@@ -1288,8 +1343,8 @@ func (rn *runner) replay(c c21Case) {
 	}
 	if c.More != nil {
 		b2 := build(c.More, install)
-		_, a1, _ := rn.w.evalOne(b, c.Decls, c.Cand, c.Kind)
-		_, a2, _ := rn.w.evalOne(b2, c.More, c.Cand, c.Kind)
+		_, a1, _ := rn.w.evalOne(b, c.Decls, c.Cand, o, c.Kind)
+		_, a2, _ := rn.w.evalOne(b2, c.More, c.Cand, o, c.Kind)
 		fmt.Printf("replay monotonic: allowed=%v, with more deny alternatives allowed=%v\n", a1, a2)
 		if a2 && !a1 {
 			rn.r.Violation(fmt.Sprintf("monotonic:%s:%s", c.Decls, c.Cand), "adding deny alternatives turned a refusal into an allowance", c)
